@@ -20,6 +20,6 @@ func main() {
 	fmt.Println("ii", bm.List_internal_inputs(), "io", bm.List_internal_outputs())
 	for i, d := range bm.Domains {
 		dis, _ := d.Disassembler()
-		fmt.Printf("-- domain %d R=%d N=%d M=%d L=%d O=%d rsize=%d ops=%d\n%s", i, d.R, d.N, d.M, d.L, d.O, d.Rsize, len(d.Op), dis)
+		fmt.Printf("-- domain %d R=%d N=%d M=%d L=%d O=%d rsize=%d ops=%d data=%q\n%s", i, d.R, d.N, d.M, d.L, d.O, d.Rsize, len(d.Op), d.Data.Vars, dis)
 	}
 }
